@@ -408,6 +408,35 @@ def real_dataset_checks(tier):
             notes.append(f'{conv}: could not build a Fortran-ordered twin')
         elif key_of(alt) != k0:
             V(f'real:{conv}:memory-layout', 'identical geometry values give the same key whatever the memory layout of the arrays', g)
+    # content that is neither geometry nor a data variable: coordinates left behind by a selection, auxiliary coordinates
+    for conv in ('cf1d', 'ugrid'):
+        base = _dataset(conv)
+        base = base.assign_coords(time=(('t',), numpy.array(['2020-01-01', '2020-01-02'], dtype='datetime64[ns]')),
+                                  run=((), 7))
+        k0 = key_of(base.isel(t=slice(0, 1)))
+        for name, d in (('first time step selected (scalar time coordinate)', base.isel(t=0)),
+                        ('second time step selected (scalar time coordinate)', base.isel(t=1)),
+                        ('another scalar coordinate value', base.isel(t=0).assign_coords(run=((), 8))),
+                        ('auxiliary coordinate on the time dimension', base.assign_coords(label=(('t',), numpy.array([3.0, 4.0]))))):
+            if key_of(d) != k0:
+                V(f'real:{conv}:{name}', 'editing non-geometry content does not change the cache key', name)
+    # the convention is part of the key: the class the dataset is bound to, not the one detection would pick
+    from emsarray.conventions.grid import CFGrid1D, CFGrid2D
+    from emsarray.conventions.shoc import ShocSimple
+    from emsarray.operations.cache import make_cache_key
+
+    class Flavour(CFGrid1D):
+        pass
+    a, b = _dataset('cf1d').copy(), _dataset('cf1d').copy()
+    CFGrid1D(a).bind()
+    Flavour(b).bind()
+    if make_cache_key(a) == make_cache_key(b):
+        V('real:cf1d:bound-subclass', 'a dataset bound to another convention class gets a different key', 'CFGrid1D vs a subclass bound by hand')
+    a, b = builders.shoc_simple(2, 2), builders.shoc_simple(2, 2)
+    ShocSimple(a).bind()
+    CFGrid2D(b).bind()
+    if make_cache_key(a) == make_cache_key(b):
+        V('real:shoc_simple:bound-cf2d', 'a dataset bound to another convention class gets a different key', 'ShocSimple vs CFGrid2D on the same file')
     # connectivity variables: index tables and their fill / start_index attributes are geometry too
     for supply, extra in ((('edge_node', 'face_edge'), dict()), (('face_edge',), dict(edge_dimension_attr=False, with_edges=False)),
                           (('edge_node', 'edge_face', 'face_face'), dict())):
